@@ -1,7 +1,7 @@
 (* C03 — Gallina comparators used by the generated case shards (gen/cases_*.v). *)
 From Coq Require Import List ZArith Bool Arith.
 Import ListNotations.
-Require Import C03.Model.
+Require Import C03.Model C03.ProofsDiag.
 Open Scope Z_scope.
 
 Fixpoint lnat_eqb (a b : list nat) : bool :=
@@ -153,3 +153,23 @@ Definition split_code (c : split_case) : nat :=
   ((if ltrip_eqb (split_slice Pinned (pc_sizes c) (pc_a c) (pc_b c)) (pc_obs c) then 1 else 0) +
    (if ltrip_eqb (split_slice Fixed (pc_sizes c) (pc_a c) (pc_b c)) (pc_obs c) then 2 else 0))%nat.
 Definition split_codes (cs : list split_case) : list nat := map split_code cs.
+
+(* ---- Interpolated._get_indices over a dense base with ncols columns (also the default LinearOperator._get_indices:
+        one point per side with weight 1): per queried (row, col) pair the interpolation indices / values of that row
+        and that column *)
+Record interp_case := IC { ic_n : Z; ic_d : list Z; ic_q : list (list Z * list Z * list Z * list Z); ic_obs : list Z }.
+Definition interp_ok (c : interp_case) : bool :=
+  lz_eqb (map (fun '(li, lv, ri, rv) => interp_get_indices (mat_at (ic_n c) (ic_d c)) li lv ri rv) (ic_q c)) (ic_obs c).
+Definition bad_interp (cs : list interp_case) : list nat := bad interp_ok cs 0.
+
+(* ---- Interpolated._diagonal over Root(dense R with rk columns): per diagonal position the four lists *)
+Record idiag_case := IDC { idc_rk : Z; idc_d : list Z; idc_q : list (list Z * list Z * list Z * list Z); idc_obs : list Z }.
+Definition idiag_ok (c : idiag_case) : bool :=
+  lz_eqb (map (fun '(li, lv, ri, rv) => interp_root_diag (mat_at (idc_rk c) (idc_d c)) (Z.to_nat (idc_rk c)) li lv ri rv) (idc_q c))
+         (idc_obs c).
+Definition bad_idiag (cs : list idiag_case) : list nat := bad idiag_ok cs 0.
+
+(* ---- _kron_diag of the factor diagonals *)
+Record kdiag_case := KD { kd_diags : list (list Z); kd_obs : list Z }.
+Definition kdiag_ok (c : kdiag_case) : bool := lz_eqb (kron_diag (kd_diags c)) (kd_obs c).
+Definition bad_kdiag (cs : list kdiag_case) : list nat := bad kdiag_ok cs 0.
